@@ -2,7 +2,8 @@
 
 Correspondence: the REAL `ThreadedServer`, `ThreadPoolServer`, `OneShotServer` (in this process) and `ForkingServer`
 (in a subprocess), over TCP (port 0) and unix sockets, with and without an authenticator, driven by operation
-sequences with 1-4 clients (connect with good / failing credentials, call, graceful close, abrupt close, server
+sequences with 1-4 clients (connect with good / failing / slow credentials - the authenticator blocked reading, the
+credentials sent by a later operation, so that a close can fall in between -, call, graceful close, abrupt close, server
 close at any point, closing again, further operations after the close), against the bookkeeping automaton
 `Rpyc.Srv` (lean/RpycModel/Srv/Server.lean) through `drv_server`.  After each operation the harness waits (ceiling
 10 s, 3 ms polls — never a fixed sleep) until what it can observe of the real server equals what the model printed:
@@ -78,6 +79,11 @@ def corpus():
         # failing authentication (the pool's accept thread does it itself), then a good client, then close
         for kind in KINDS:
             out.append(case_dict(kind, tr, True, 2, "c1:b c2:b c3:g p3 a3 c4:g X".split()))
+        # slow credentials: the client is INSIDE the authenticator when close() runs; it sends them afterwards
+        for kind in KINDS:
+            out.append(case_dict(kind, tr, True, 2, "c1:g p1 c2:s X k2:g p2 p1".split()))
+            out.append(case_dict(kind, tr, True, 2, "c1:s X k1:b".split()))
+            out.append(case_dict(kind, tr, True, 2, "c1:s k1:g p1 c2:s k2:b c3:s a3 c4:g p4 X".split()))
         # one-shot: a second connection waits in the listen queue and is reset when the server closes itself
         out.append(case_dict("oneshot", tr, False, 1, "c1:g c2:g p1 a1 c3:g".split()))
         out.append(case_dict("oneshot", tr, True, 1, "c1:b c2:g".split()))
@@ -91,6 +97,7 @@ def gen_case(r):
     nb = r.choice([1, 2, 3])
     nclients = r.range(1, 4)
     toks, live, nextk = [], [], 1
+    slow = []                      # connected without credentials so far (the authenticator is blocked reading)
     closed = 0
     n = r.range(3, 12)
     close_at = r.below(n + 2)          # may be beyond the end: no close at all
@@ -102,11 +109,24 @@ def gen_case(r):
             closed += 1
             continue
         x = r.below(100)
-        if (not live or x < 28) and nextk <= nclients + closed:
-            cred = "b" if (auth and r.chance(1, 3)) else "g"
+        if slow and x < 22:
+            k = r.choice(slow)
+            slow.remove(k)
+            y = r.below(3)
+            toks.append(["k%d:g", "k%d:b", "a%d"][y] % k)
+            if y == 0:
+                live.append(k)
+        elif (not live or x < 28) and nextk <= nclients + closed:
+            cred = "g"
+            if auth and r.chance(1, 3):
+                cred = "b"
+            elif auth and r.chance(1, 3) and (kind != "pool" or not slow):
+                cred = "s"
             toks.append("c%d:%s" % (nextk, cred))
             if cred == "g":
                 live.append(nextk)
+            elif cred == "s":
+                slow.append(nextk)
             nextk += 1
         elif live and x < 62:
             toks.append("p%d" % r.choice(live))
@@ -162,8 +182,8 @@ def correspondence(ctx):
               "A case is non-trivial if at least one client connected; distinct = distinct (server kind, transport, "
               "authenticator, sequence of (operation kind, client observation)).")
     r = Rng(ctx.seed).fork("c17")
-    ncases = ctx.budget(60, 700)
-    deadline = time.time() + ctx.budget(70, 780)
+    ncases = ctx.budget(90, 800)
+    deadline = time.time() + ctx.budget(48, 780)
     cases = corpus()
     while len(cases) < ncases:
         cases.append(gen_case(r))
@@ -234,7 +254,7 @@ def oracle_case(case, known=(), ceiling=servers.CEILING):
         served_first = None
         for i, tok in enumerate(case["ops"]):
             t = tok[0]
-            if t not in "cpgaX":
+            if t not in "cpgaXk":
                 continue           # not an operation of this property
             obs = sess.do(tok)
             where = "after op %d (%s): " % (i, tok)
@@ -268,6 +288,9 @@ def oracle_case(case, known=(), ceiling=servers.CEILING):
                         pass
                     return where + "a closed server accepted a connection", "C17:%s:listener-open-after-close" % kind
                 continue
+            if closed and t == "p" and obs in ("pong", "ref") and not (kind == "forking" and SIG_FORK in known):
+                sig = SIG_FORK if kind == "forking" else "C17:%s:close-leaves-clients-connected" % kind
+                return where + "a closed server answered client %s" % tok[1:], sig
             if closed or obs == "skip":
                 continue
             if t in "ga" or (t == "c" and tok.endswith(":b")):
@@ -310,6 +333,15 @@ def oracle_case(case, known=(), ceiling=servers.CEILING):
                         closed = True
             if kind == "oneshot" and sum(h["c"] for h in _hooks(sess).values()) > 1:
                 return where + "a one-shot server served more than one connection", "C17:oneshot:served-more-than-one"
+        if closed and not (kind == "forking" and SIG_FORK in known):
+            # whatever happened after the close (late credentials of a client that was inside the authenticator): the closed
+            # server holds nothing and nobody is connected to it
+            if not W(lambda: _snap(sess)["c"] == 0 and _snap(sess)["f"] == 0 and _snap(sess)["fds"] <= 0):
+                return ("at the end: a closed server holds %r" % (_snap(sess),)), "C17:%s:holds-entries-after-close" % kind
+            for k, cl in sess.clients.items():
+                if cl.open and not W(cl.sees_eof):
+                    return ("at the end: client %d of a closed server never observed end-of-stream" % k,
+                            "C17:%s:close-leaves-clients-connected" % kind)
         return None
     finally:
         sess.close()
